@@ -100,7 +100,6 @@ func main() {
 	note := func(s string) {
 		if prog != nil {
 			fmt.Fprintln(prog, s)
-			prog.Sync()
 		}
 	}
 
@@ -108,6 +107,30 @@ func main() {
 		d := direct.Run(*prop, *tier, *seed, si, sn, rep, note)
 		res.Cases = d.Evaluations
 		res.Exhaustive = d.Exhaustive
+		// witnesses for violations found while replaying histories
+		for _, v := range rep.Violations {
+			if v.Prop != *prop || strings.HasPrefix(v.Case, "direct:") || *replayDir == "" || len(res.Replays) >= 4 {
+				continue
+			}
+			if _, ok := res.Replays[v.Case]; ok {
+				continue
+			}
+			c, err := parseCase(v.Case)
+			if err != nil {
+				continue
+			}
+			path := filepath.Join(*replayDir, strings.NewReplacer(":", "_", "+", "_", "@", "_").Replace(v.Case)+".txt")
+			if f, err := os.Create(path); err == nil {
+				r2 := monitor.NewReport()
+				engine.RunCase(c, r2, f)
+				fmt.Fprintf(f, "\n=== violations (all properties) ===\n")
+				for _, v2 := range r2.Violations {
+					fmt.Fprintf(f, "%s [%s] scan %d: %s\n", v2.Prop, v2.Key, v2.Scan, v2.Msg)
+				}
+				f.Close()
+				res.Replays[v.Case] = path
+			}
+		}
 	} else {
 		cases := engine.Cases(*prop, *tier, *seed)
 		for i, c := range cases {
@@ -164,6 +187,10 @@ func main() {
 
 func parseCase(s string) (engine.CaseSpec, error) {
 	var c engine.CaseSpec
+	if i := strings.Index(s, "@"); i >= 0 {
+		c.Fault = s[i+1:]
+		s = s[:i]
+	}
 	parts := strings.Split(s, ":")
 	if len(parts) != 3 {
 		return c, fmt.Errorf("bad case id %q", s)
